@@ -688,6 +688,7 @@ func (cs *cmafSource) startReadAndSendChunked(ctx context.Context, finishedCh ch
 	}
 	if resp.StatusCode >= 300 {
 		cs.log.Warn("Bad status code", "code", resp.StatusCode)
+		finishedCh <- struct{}{}
 		return
 	}
 	_, err = io.ReadAll(resp.Body) // Normally no body, but ready to be sure that buffers are cleared
